@@ -247,9 +247,12 @@ func (ck *checker) compare(in *input, mode string, od bool, rr realRun, truth ma
 	for i, e := range entries {
 		fmt.Fprintf(&ob, "run %d %d 100000\n", i, d.idOf[e])
 	}
+	for i, e := range entries {
+		fmt.Fprintf(&ob, "reach %d %d 100000\n", i, d.idOf[e])
+	}
 	os.WriteFile(filepath.Join(lib.Root(), ".work", "C03", "oracle-"+in.name+"-"+mode+".txt"), []byte(ob.String()), 0o644)
 	out, err := lib.RunOracle("oracle_c03", []byte(ob.String()))
-	want := 1 + len(trefs) + len(entries)
+	want := 1 + len(trefs) + 2*len(entries)
 	if err != nil || len(out) != want {
 		rep.Fail("oracle-run:"+in.name, fmt.Sprintf("oracle failed: %v (%d lines for %d requests) %s", err, len(out), want, strings.Join(out, "|")), []byte(ob.String()), true)
 		return
@@ -326,6 +329,36 @@ func (ck *checker) compare(in *input, mode string, od bool, rr realRun, truth ma
 		}
 		if kv["fin"] != "1" {
 			rep.Count("model:not-finished")
+		}
+	}
+	// --- M7d `real ⊇ model`: every static leaf in the proved guaranteed closure (greach, theorems
+	// back_visits_closure / back_complete_partial / greach_sound) is the head of a REAL trace
+	graphHyp := hyp["wk"] == "1" && hyp["intra"] == "1"
+	if !graphHyp {
+		rep.Count("graph:outside-GraphHyp(wk/intra)")
+	}
+	for i, e := range entries {
+		kv := parseKV(out[1+len(trefs)+len(entries)+i])
+		heads := map[int]bool{}
+		for _, t := range rr.res.Traces[e] {
+			if len(t) > 0 {
+				heads[d.idOf[t[0].GraphNode]] = true
+			}
+		}
+		leaves := splitInts(kv["leaves"])
+		rep.Count(fmt.Sprintf("model-guaranteed-leaves<=%d", bucket(len(leaves))))
+		if !graphHyp {
+			continue
+		}
+		arg := e.(*df.CallNodeArg)
+		for _, l := range leaves {
+			if !heads[l] {
+				rep.Fail(ck.key(in, "guaranteed-leaf-not-reported", sinkID(arg.ParentNode())),
+					fmt.Sprintf("[%s] correspondence M7 broken (real ⊉ model): node %s is a static leaf in the guaranteed backward closure of %s (theorem back_complete_partial says the model reports a trace from it) but no REAL trace starts there",
+						mode, d.describe(l), d.describe(d.idOf[e])),
+					[]byte(in.src), true)
+				break
+			}
 		}
 	}
 	// --- ground truth: every observed origin occurs in some REAL trace of that argument
